@@ -3,6 +3,7 @@
 -/
 import Driver.Line
 import Model.Tables
+import Model.CastSpec
 
 namespace Jl.Driver.TypedCase
 open Jl Jl.Driver Jl.Driver.Line Jl.Value Jl.Template
@@ -111,6 +112,11 @@ def runImp (prop fS tyS srcS extS implS0 : String) : Result :=
             (match IntText.parseInt0 s 64 with
              | some n => if x != n then some "column-holds-another-integer" else none
              | none => none)
+          | .int t, .f64 _, _ | .int t, .f32 _, _ =>
+            -- a number carried by a Go float (handed through the API): every format but binary converts it with
+            -- cast.To(T, v) — the exact integer when it is integral and fits, never an invented one
+            if f == .binary then none
+            else (CastSpec.intCastViolation t v impl).map fun c => "float-carrier-" ++ c
           | _, _, _ => none
         else if prop == "C11" then
           -- a binary column mapped to a fixed-width type accepts only well-sized payloads and re-emits
@@ -126,7 +132,13 @@ def runImp (prop fS tyS srcS extS implS0 : String) : Result :=
           | _, _, _ => none
         else none
       | .err _ =>
-        if prop == "C11" then
+        if prop == "C09" then
+          match ty, v with
+          | .int t, .f64 _ | .int t, .f32 _ =>
+            if f == .binary then none
+            else (CastSpec.intCastViolation t v impl).map fun c => "float-carrier-" ++ c
+          | _, _ => none
+        else if prop == "C11" then
           match f, binWidth ty, v with
           | .binary, some w, .str s =>
             match Base64.decode s with
